@@ -89,11 +89,21 @@ def alias_renamed(prog, known):
     if not new:
         return out
     gone = [k for k in sigs if k not in prog.fns and k.split("::", 1)[0] in crates]
+    import re
+
+    def const_len(m):
+        # `[u64;SQUARE_COUNT]` in an impl's self type names the same type as `[u64;64]` when the constant is 64
+        name = m.group(1).rsplit("::", 1)[-1]
+        vals = {c.get("value") for k_, c in prog.consts.items() if k_.rsplit("::", 1)[-1] == name and isinstance(c.get("value"), int)}
+        return ";%d]" % vals.pop() if len(vals) == 1 else m.group(0)
+
+    def norm_parent(k):
+        return re.sub(r";\s*([A-Za-z_][A-Za-z0-9_:]*)\]", const_len, k.rsplit("::", 1)[0])
     for old in gone:
         parent = old.rsplit("::", 1)[0]
         cands = []
         for k in new:
-            if k.rsplit("::", 1)[0] != parent:
+            if k.rsplit("::", 1)[0] != parent and not (norm_parent(k) == parent and k.rsplit("::", 1)[-1] == old.rsplit("::", 1)[-1]):
                 continue
             f = prog.fns[k]
             n = f["args"] if isinstance(f["args"], int) else len(f["args"])
